@@ -287,4 +287,4 @@ def shard_random(ctx, shard, nshards, n):
 def run(ctx):
     ctx.run_parallel('shard_pairs')
     ctx.exhaustive('every ordered pair (then the first call again) of 36 markup steps × dict/Config and of 48 stylesheet steps with and without a shared cache')
-    ctx.run_parallel('shard_random', extra=(ctx.pick(40, 1500),))
+    ctx.run_parallel('shard_random', extra=(ctx.pick(40, 600),))
